@@ -7,6 +7,7 @@ import fcntl
 import hashlib
 import json
 import os
+import threading
 import random
 import re
 import subprocess
@@ -144,7 +145,8 @@ def build_harness(src, out_name, std="c++17", cxx="g++", opt="-O1", defines=(), 
     cmd += ["-D" + d for d in defines]
     cmd += list(extra)
     # compile to a private name, then rename atomically: checks may run concurrently and share harnesses
-    tmp = "%s.tmp.%d" % (out, os.getpid())
+    # (two threads of one process may build the same variant when a variant list names it twice)
+    tmp = "%s.tmp.%d.%d" % (out, os.getpid(), threading.get_ident())
     cmd += [os.path.join(HARNESS, src), "-o", tmp, "-pthread"]
     rc, o, e = sh(cmd, timeout=900)
     if rc == 0:
@@ -156,8 +158,13 @@ def build_harness(src, out_name, std="c++17", cxx="g++", opt="-O1", defines=(), 
 
 def build_many(jobs):
     """jobs: list of kwargs for build_harness; built in parallel. returns list of (ok, path, log)"""
-    with ThreadPoolExecutor(max_workers=min(16, max(1, len(jobs)))) as ex:
-        return list(ex.map(lambda kw: build_harness(**kw), jobs))
+    # a variant named twice is built once
+    uniq = {}
+    for kw in jobs:
+        uniq.setdefault(kw["out_name"], kw)
+    with ThreadPoolExecutor(max_workers=min(16, max(1, len(uniq)))) as ex:
+        done = dict(zip(uniq, ex.map(lambda kw: build_harness(**kw), uniq.values())))
+    return [done[kw["out_name"]] for kw in jobs]
 
 
 def split_sections(text):
